@@ -655,7 +655,7 @@ func enumerate(yield func(XCase) bool) {
 	latest := vstat.Pick(3, 4)    // all placements with latest bases x all arrivals
 	triple := vstat.Pick(4, 5)    // all arrivals, rotating placements
 	maxN := 5                     // sampled beyond triple
-	sample := vstat.Pick(3000, 0) // number of sampled triples of size > triple (whole run, all shards)
+	sample := vstat.Pick(2500, 0) // number of sampled triples of size > triple (whole run, all shards)
 	if v := envInt("C06_MAXN", 0); v > 0 {
 		maxN = v
 	}
